@@ -46,7 +46,7 @@ Definition at_denote (c : at_cst) : attrtype :=
        (match at_csyn c with Some (_, _, x) => syn_l x | None => None end)
        (flag_on (at_csingle c)) (flag_on (at_ccol c)) (flag_on (at_cnum c))
        (match at_cusage c with Some (_, _, u) => u | None => 0 end)
-       (map ext_den (at_cext c)).
+       (exts_den (at_cext c)).
 
 Definition at_cst_wf (c : at_cst) : Prop :=
   head_ok (at_h c) /\ part_ok oid_ok (at_csup c) /\ part_ok oid_ok (at_ceq c) /\ part_ok oid_ok (at_cord c) /\ part_ok oid_ok (at_csub c) /\
@@ -93,7 +93,7 @@ Lemma arej5 : rej_ok AT_t5.  Proof. split; [reflexivity|apply afirst5]. Qed.
 Lemma arej4 : rej_ok AT_t4.  Proof. split; [reflexivity|apply afirst4]. Qed.
 
 Lemma gat_t13 c : at_cst_wf c -> tail_ok AT_t13 (b13 c) 65 (S13 c).
-Proof. intros (_ & _ & _ & _ & _ & _ & _ & [He _]). apply (ext_tail_g 65); [lia|assumption]. Qed.
+Proof. intros (_ & _ & _ & _ & _ & _ & _ & He). apply (ext_tail_g 65); [lia|assumption]. Qed.
 
 Lemma m_USAGE_g u rest pos cs k : usage_wf u -> eats USAGEr (usage_name u) rest pos cs k 1 0.
 Proof.
